@@ -65,7 +65,7 @@ func condSym(v ssa.Value) string {
 		}
 	case *ssa.Call:
 		if cal := x.Call.StaticCallee(); cal != nil {
-			return cal.Name() + "()"
+			return core.CanonName(cal) + "()"
 		}
 	}
 	return core.Sym(v)
